@@ -3,11 +3,16 @@
 // An EventLoop exists only to own the pollers (its poller_ is pointed at the back-end an op is
 // meant for) and to satisfy assertInLoopThread().  Same case / output format as extract/C09_driver.ml.
 //
-//   case <id> ops                      op-by-op history (both back-ends, every op on both)
+//   case <id> ops [only=E|only=P] [plain]   op-by-op history (both back-ends, every op on both; only=: one back-end,
+//                                      needed when the loop's own wake-up / timer descriptors are used; "plain" is a
+//                                      marker for the checker: the case is also replayed on a non-ASan build)
 //   case <id> loop <epoll|poll>        free-running loop scenario (blocks instead of spinning)
 //   end
 // environment ops (descriptor k lives at real fd 100+k, its peer at 600+k):
 //   open k E|S|P|Q   eventfd | socketpair end | pipe read end | pipe write end
+//   open k W|T       a dup of the EventLoop's own wake-up eventfd | of its TimerQueue's timerfd: a channel constructed on it
+//                    gets the loop's real EventLoop::handleRead / TimerQueue::handleRead as its read callback
+//   WAKE             the real EventLoop::wakeup();   TIMER   runAfter(~0) and wait until the timerfd is due
 //   wr k             make readable (eventfd += 1; peer writes one byte)
 //   drain k          read everything from k
 //   hc k             peer half-closes (shutdown SHUT_WR), S only
@@ -23,7 +28,10 @@
 //   ON c kind op c2  script: when the <kind> callback (read|write|close|error) of c runs, call
 //                    op (ER|DR|EW|DW|DA|RM|DEL) on c2;  ON c kind NEW c2 k constructs c2 on descriptor k;
 //                    ON c kind Q <op c2 | NEW c2 k>: the callback queues a functor (queueInLoop) that makes
-//                    the call -- it runs in doPendingFunctors of the same iteration;  OFF forgets all scripts
+//                    the call -- it runs in doPendingFunctors of the same iteration;  QQ: the queued functor queues a
+//                    second functor (while callingPendingFunctors_: the real queueInLoop must wake the loop), which
+//                    makes the call in the NEXT iteration;  OFF forgets all scripts
+//   HAS c            Poller::hasChannel on each back-end;   FOREIGN op c   the op from another thread (must abort)
 //   LOOP k:bits ...  ONE iteration of the real EventLoop::loop() per back-end (poller_ pointed at it,
 //                    poll time-out forced to 0 by --wrap, quit() queued as a pending functor): poll,
 //                    dispatch of the activeChannels_ snapshot with the scripted callbacks, in the
@@ -64,6 +72,7 @@
 #include "muduo/net/Poller.h"
 #include "muduo/net/poller/EPollPoller.h"
 #include "muduo/net/poller/PollPoller.h"
+#include "muduo/net/TimerQueue.h"
 #undef private
 #undef protected
 #include "muduo/base/Logging.h"
@@ -94,27 +103,34 @@ static Obj g_obj[MAXCH];
 static std::vector<string> g_cb[2];
 static bool g_dead[2];            // a side whose batch was rejected is not touched again in this case
 
-struct Script { int c; string kind; bool queued; string op; int c2; int arg; };
+struct Script { int c; string kind; int queued; string op; int c2; int arg; bool active; };   // queued: 0 direct, 1 Q, 2 QQ
+// OFF only deactivates: indices stay valid for functors that are still queued
+static std::atomic<int> g_timerFired(0);
+static int g_specialOpen = 0;     // number of open W/T descriptors: LOOP then also prints w= t= tf=
 static std::vector<Script> g_scripts;
 static bool g_inBatch = false;    // inside LOOP: callbacks execute their scripts
 static int g_side = 0;            // side the running batch belongs to
 static bool g_batchRejected = false;
 static bool g_snapTaken = false;  // activeChannels_ as (channel id, revents), captured before any callback could destroy one
 static std::vector<std::pair<int, int> > g_snap;
+static std::set<int> g_destroyedInBatch;
 static std::vector<int> g_fnRan;  // queued functors (script indices) in the order they ran
 static volatile bool g_zeroTimeout = false;
+static volatile bool g_longTimeout = false;   // free-running scenario: the loop's 10 s poll time-out becomes 10 min, so that a
+                                              // lost wake-up can never be mistaken for a slow machine (and vice versa)
 
 extern "C" int __real_epoll_wait(int, struct epoll_event*, int, int);
 extern "C" int __wrap_epoll_wait(int epfd, struct epoll_event* ev, int maxev, int timeout)
 {
-  return __real_epoll_wait(epfd, ev, maxev, g_zeroTimeout ? 0 : timeout);
+  return __real_epoll_wait(epfd, ev, maxev, g_zeroTimeout ? 0 : (g_longTimeout && timeout > 1000 ? 600000 : timeout));
 }
 extern "C" int __real_poll(struct pollfd*, nfds_t, int);
 extern "C" int __wrap_poll(struct pollfd* fds, nfds_t n, int timeout)
 {
-  return __real_poll(fds, n, g_zeroTimeout ? 0 : timeout);
+  return __real_poll(fds, n, g_zeroTimeout ? 0 : (g_longTimeout && timeout > 1000 ? 600000 : timeout));
 }
 
+static void msleep(int ms) { ::usleep(static_cast<useconds_t>(ms) * 1000); }
 static EventLoop* g_loop;
 static EPollPoller* g_ep;
 static PollPoller* g_pp;
@@ -151,6 +167,8 @@ static bool openDesc(int k, char kind)
     case 'P': if (::pipe(fds) != 0) { perror("pipe"); exit(3); } a = fds[0]; b = fds[1]; break;
     case 'Q': if (::pipe(fds) != 0) { perror("pipe"); exit(3); } a = fds[1]; b = fds[0];
       ::fcntl(a, F_SETPIPE_SZ, 4096); break;
+    case 'W': a = ::dup(g_loop->wakeupFd_); ++g_specialOpen; break;
+    case 'T': a = ::dup(g_loop->timerQueue_->timerfd_); ++g_specialOpen; break;
     default: return false;
   }
   if (a < 0) { perror("open"); exit(3); }
@@ -261,6 +279,11 @@ static void record(int side, int c, const char* kind);
 static Channel* makeChannel(int side, int c, int fd)
 {
   Channel* ch = new Channel(g_loop, fd);
+  char kind = g_desc[fd - FDBASE].kind;
+  // on the loop's own descriptors the read callback is what the loop itself installs
+  if (kind == 'W') ch->setReadCallback([=](Timestamp) { g_loop->handleRead(); record(side, c, "read"); });
+  else if (kind == 'T') ch->setReadCallback([=](Timestamp) { g_loop->timerQueue_->handleRead(); record(side, c, "read"); });
+  else
   ch->setReadCallback([=](Timestamp) { record(side, c, "read"); });
   ch->setWriteCallback([=]() { record(side, c, "write"); });
   ch->setCloseCallback([=]() { record(side, c, "close"); });
@@ -298,9 +321,11 @@ static bool opAllowed(const string& op, int c2, int arg, int side, int cur)
     if (!o.reg || !o.ch->isNoneEvent()) return false;
     if (cur >= 0 && c2 != cur)
     {
-      // EventLoop::removeChannel: assert(currentActiveChannel_ == channel || not in activeChannels_)
-      std::vector<Channel*>& act = g_loop->activeChannels_;
-      if (std::find(act.begin(), act.end(), o.ch) != act.end()) return false;
+      // EventLoop::removeChannel: assert(currentActiveChannel_ == channel || not in activeChannels_) -- tested on the
+      // driver's own bookkeeping by channel IDENTITY: an object of the snapshot that was not destroyed during this batch
+      // (a fresh object constructed under the same id is a different channel, whatever address the allocator gave it)
+      for (size_t i = 0; i < g_snap.size(); ++i)
+        if (g_snap[i].first == c2 && !g_destroyedInBatch.count(c2)) return false;
     }
     return true;
   }
@@ -315,7 +340,7 @@ static void doOp(const string& op, int c2, int arg, int side)
     o.ch = makeChannel(side, c2, FDBASE + arg); o.fd = arg; o.alive = true; o.reg = false; o.owner.reset();
     return;
   }
-  if (op == "DEL") { delete o.ch; o.ch = NULL; o.alive = false; return; }
+  if (op == "DEL") { delete o.ch; o.ch = NULL; o.alive = false; if (g_inBatch) g_destroyedInBatch.insert(c2); return; }
   Channel* ch = o.ch;
   if (op == "ER") ch->enableReading();
   else if (op == "DR") ch->disableReading();
@@ -335,11 +360,17 @@ static void takeSnapshot(int side)
   for (size_t i = 0; i < act.size(); ++i) g_snap.push_back(std::make_pair(cidOf(act[i], side), act[i]->revents_));
 }
 
-static void runQueued(int side, int idx)
+static void runQueued(int side, int idx, int stage)
 {
-  g_fnRan.push_back(idx);
+  g_fnRan.push_back(stage == 2 ? 1000 + idx : idx);
   if (g_batchRejected) return;
   const Script& sc = g_scripts[static_cast<size_t>(idx)];
+  if (sc.queued == 2 && stage == 1)
+  {
+    // a running functor queues another one: callingPendingFunctors_ is true, queueInLoop must call wakeup()
+    g_loop->queueInLoop([side, idx]() { runQueued(side, idx, 2); });
+    return;
+  }
   // doPendingFunctors runs after the dispatch loop: eventHandling_ is false, no batch assert applies
   if (!opAllowed(sc.op, sc.c2, sc.arg, side, -1)) { g_batchRejected = true; return; }
   doOp(sc.op, sc.c2, sc.arg, side);
@@ -356,11 +387,11 @@ static void record(int side, int c, const char* kind)
   for (size_t i = 0; i < g_scripts.size(); ++i)
   {
     const Script& sc = g_scripts[i];
-    if (sc.c != c || sc.kind != kind) continue;
+    if (!sc.active || sc.c != c || sc.kind != kind) continue;
     if (sc.queued)
     {
       int idx = static_cast<int>(i);
-      g_loop->queueInLoop([side, idx]() { runQueued(side, idx); });
+      g_loop->queueInLoop([side, idx]() { runQueued(side, idx, 1); });
       continue;
     }
     if (!opAllowed(sc.op, sc.c2, sc.arg, side, c)) { g_batchRejected = true; return; }
@@ -383,8 +414,28 @@ static string activeString(Poller::ChannelList& act, int side, string* cbs)
   return os.str();
 }
 
+static unsigned long long eventfdCount(int fd)
+{
+  char path[64], line[256];
+  snprintf(path, sizeof path, "/proc/self/fdinfo/%d", fd);
+  FILE* f = fopen(path, "r");
+  unsigned long long v = 0;
+  if (f)
+  {
+    while (fgets(line, sizeof line, f)) { unsigned long long x; if (sscanf(line, "eventfd-count: %llx", &x) == 1) v = x; }
+    fclose(f);
+  }
+  return v;
+}
+static bool fdReadable(int fd)
+{
+  struct pollfd p; p.fd = fd; p.events = POLLIN; p.revents = 0;
+  bool z = g_zeroTimeout; g_zeroTimeout = true; ::poll(&p, 1, 0); g_zeroTimeout = z;
+  return (p.revents & POLLIN) != 0;
+}
+
 // one real iteration of EventLoop::loop() on one back-end; the active list in dispatch order
-static string loopOnce(int side)
+static string loopOnce(int side, bool quitQueued)
 {
   usePoller(pollerOf(side));
   std::ostringstream os;
@@ -395,8 +446,9 @@ static string loopOnce(int side)
     return os.str();
   }
   g_side = side; g_inBatch = true; g_batchRejected = false; g_zeroTimeout = true;
-  g_snapTaken = false; g_fnRan.clear();
-  g_loop->queueInLoop(std::bind(&EventLoop::quit, g_loop));
+  g_snapTaken = false; g_fnRan.clear(); g_destroyedInBatch.clear(); g_snap.clear();
+  int fired0 = g_timerFired.load();
+  if (!quitQueued) g_loop->queueInLoop(std::bind(&EventLoop::quit, g_loop));
   g_loop->loop();
   g_zeroTimeout = false; g_inBatch = false;
   takeSnapshot(side);            // no callback ran: nothing was destroyed, the list can still be read
@@ -412,6 +464,12 @@ static string loopOnce(int side)
   {
     os << " cb=" << cbs << " fn=";
     for (size_t i = 0; i < g_fnRan.size(); ++i) os << (i ? "," : "") << g_fnRan[i];
+    if (g_specialOpen > 0)
+    {
+      // the loop's own descriptors after the iteration: eventfd counter (/proc), timerfd due?, timer callbacks run
+      os << " w=" << eventfdCount(g_loop->wakeupFd_) << " t=" << (fdReadable(g_loop->timerQueue_->timerfd_) ? 1 : 0)
+         << " tf=" << (g_timerFired.load() - fired0);
+    }
   }
   g_loop->activeChannels_.clear();   // may hold pointers to destroyed channels
   return os.str();
@@ -440,6 +498,14 @@ static void resetCase()
   g_cb[0].clear(); g_cb[1].clear();
   g_dead[0] = g_dead[1] = false;
   g_scripts.clear();
+  // the loop's own state is shared by all cases: expire what is armed, forget queued functors, drain both descriptors
+  // (every LOOP of every case writes the wake-up eventfd: queueInLoop(quit) before loop() is entered)
+  g_loop->pendingFunctors_.clear();
+  if (!g_loop->timerQueue_->timers_.empty()) { msleep(3); g_loop->timerQueue_->handleRead(); }
+  else if (fdReadable(g_loop->timerQueue_->timerfd_)) g_loop->timerQueue_->handleRead();
+  if (fdReadable(g_loop->wakeupFd_)) g_loop->handleRead();
+  g_specialOpen = 0;
+  g_timerFired = 0;
 }
 
 // a top-level channel op on both sides: "ok" / "rejected" / "MIXED" (the sides went apart: the case ends)
@@ -463,7 +529,6 @@ static bool topLevel(const string& op, int c, int arg, bool* bad)
 
 // ------------------------------------------------------------------ free-running loop scenario
 static int64_t iterOf(EventLoop* l) { return *const_cast<volatile int64_t*>(&l->iteration_); }
-static void msleep(int ms) { ::usleep(static_cast<useconds_t>(ms) * 1000); }
 
 // wait (at most maxms) until pred() holds; the scenario never relies on a fixed sleep being long enough for the loop
 // thread to be scheduled -- only "nothing happens for 150 ms" observations are timed
@@ -476,6 +541,7 @@ template <typename F> static bool waitFor(F pred, int maxms)
 static void loopScenario(const string& backend)
 {
   if (backend == "poll") ::setenv("MUDUO_USE_POLL", "1", 1); else ::unsetenv("MUDUO_USE_POLL");
+  g_longTimeout = true;
   std::atomic<EventLoop*> lp(NULL);
   std::atomic<int> timerRuns(0), taskRuns(0), nestedRuns(0);
   std::thread th([&]() {
@@ -486,13 +552,13 @@ static void loopScenario(const string& backend)
   });
   while (lp.load() == NULL) msleep(1);
   EventLoop* l = lp.load();
-  for (int i = 0; i < 5000 && !l->looping_; ++i) msleep(1);
+  for (int i = 0; i < 120000 && !l->looping_; ++i) msleep(1);
   const char* kind = dynamic_cast<PollPoller*>(l->poller_.get()) ? "PollPoller"
                      : dynamic_cast<EPollPoller*>(l->poller_.get()) ? "EPollPoller" : "?";
   std::ostringstream os;
   os << "loop backend=" << backend << " poller=" << kind;
   msleep(30);
-  const int LIMIT = 4000;   // ms; far below the 10 s poll time-out a lost wake-up would have to wait for
+  const int LIMIT = 30000;    // ms: generous for a starved machine; a lost wake-up would wait for the (lengthened) 10 min time-out
   auto idle = [&](const char* name) {
     int64_t x = iterOf(l); msleep(150); int64_t y = iterOf(l);
     os << " " << name << "=" << (y - x == 0 ? "blocked" : "SPINS(" + std::to_string(y - x) + ")");
@@ -537,6 +603,7 @@ static void loopScenario(const string& backend)
   idle("idle4");
   l->quit();
   th.join();
+  g_longTimeout = false;
   ::unsetenv("MUDUO_USE_POLL");
   printf("%s\n", os.str().c_str());
 }
@@ -565,6 +632,11 @@ int main()
       resetCase();
       bad = false;
       loopCase = (w.size() > 3 && w[2] == "loop");
+      for (size_t i = 3; i < w.size(); ++i)
+      {
+        if (w[i] == "only=E") g_dead[1] = true;
+        if (w[i] == "only=P") g_dead[0] = true;
+      }
       printf("case %s abi=%d,%d,%d,%d,%d,%d,%d epoll_eq_poll=%d\n", w[1].c_str(), POLLIN, POLLPRI, POLLOUT, POLLERR, POLLHUP,
              POLLNVAL, POLLRDHUP,
              (EPOLLIN == POLLIN && EPOLLPRI == POLLPRI && EPOLLOUT == POLLOUT && EPOLLERR == POLLERR && EPOLLHUP == POLLHUP) ? 1 : 0);
@@ -574,7 +646,7 @@ int main()
     if (k == "end") { printf("end\n"); fflush(stdout); continue; }
     if (loopCase) { continue; }
     if (bad) { printf("skipped\n"); continue; }
-    int a = w.size() > 1 && k != "POLL" && k != "LOOP" ? atoi(w[1].c_str()) : 0;
+    int a = w.size() > 1 && k != "POLL" && k != "LOOP" && k != "FOREIGN" ? atoi(w[1].c_str()) : 0;
 
     // ---------------- environment ops
     if (k == "open")
@@ -625,7 +697,7 @@ int main()
         for (int c = 0; c < MAXCH; ++c)
           for (int side = 0; side < 2; ++side)
             if (g_obj[c].s[side].alive && g_obj[c].s[side].fd == a) used = true;
-        for (size_t i = 0; i < g_scripts.size(); ++i) if (g_scripts[i].op == "NEW" && g_scripts[i].arg == a) used = true;
+        for (size_t i = 0; i < g_scripts.size(); ++i) if (g_scripts[i].active && g_scripts[i].op == "NEW" && g_scripts[i].arg == a) used = true;
         if (used) { invalid("close with a live channel or a script constructing one"); bad = true; continue; }
         ::close(fd); d.open = false;
         if (d.peerOpen) { ::close(peer); d.peerOpen = false; }
@@ -643,6 +715,41 @@ int main()
     {
       if (a < 0 || a >= MAXCH) { invalid("channel op"); bad = true; continue; }
       topLevel(k, a, -1, &bad);
+    }
+    else if (k == "WAKE") { g_loop->wakeup(); printf("wake\n"); }
+    else if (k == "TIMER")
+    {
+      g_loop->runAfter(0.0002, []() { ++g_timerFired; });
+      msleep(2);            // at least 2 ms (usleep never returns early): this timer's expiration time has passed for sure,
+                            // even when the timerfd was already readable because of an earlier timer
+      bool due = false;
+      for (int i = 0; i < 20000 && !due; ++i) { due = fdReadable(g_loop->timerQueue_->timerfd_); if (!due) msleep(1); }
+      printf(due ? "timer\n" : "timer NOT-DUE\n");
+    }
+    else if (k == "HAS")
+    {
+      if (a < 0 || a >= MAXCH) { invalid("HAS"); bad = true; continue; }
+      string r[2];
+      for (int side = 0; side < 2; ++side)
+      {
+        if (g_dead[side]) { r[side] = "-"; continue; }
+        usePoller(pollerOf(side));
+        r[side] = (g_obj[a].s[side].alive && g_loop->hasChannel(g_obj[a].s[side].ch)) ? "1" : "0";
+      }
+      printf("has E=%s P=%s\n", r[0].c_str(), r[1].c_str());
+    }
+    else if (k == "FOREIGN")
+    {
+      // a Channel update from a thread that is not the loop's: Poller::assertInLoopThread must abort the process
+      int c2 = w.size() > 2 ? atoi(w[2].c_str()) : -1;
+      int side = g_dead[0] ? 1 : 0;
+      if (w.size() < 3 || c2 < 0 || c2 >= MAXCH || !g_obj[c2].s[side].alive) { invalid("FOREIGN"); bad = true; continue; }
+      string op = w[1];
+      usePoller(pollerOf(side));
+      fflush(stdout);
+      std::thread th([&]() { doOp(op, c2, -1, side); });
+      th.join();
+      printf("foreign NOT-REFUSED\n");
     }
     else if (k == "INJ")
     {
@@ -666,11 +773,12 @@ int main()
     else if (k == "ON")
     {
       // ON c kind [Q] op c2 [k]
-      Script sc; sc.c = a; sc.queued = false; sc.arg = -1;
+      Script sc; sc.c = a; sc.queued = 0; sc.arg = -1; sc.active = true;
       size_t i = 3;
       if (w.size() < 5) { invalid("ON"); bad = true; continue; }
       sc.kind = w[2];
-      if (w[i] == "Q") { sc.queued = true; ++i; }
+      if (w[i] == "Q") { sc.queued = 1; ++i; }
+      else if (w[i] == "QQ") { sc.queued = 2; ++i; }
       if (w.size() < i + 2) { invalid("ON"); bad = true; continue; }
       sc.op = w[i]; sc.c2 = atoi(w[i + 1].c_str());
       if (sc.op == "NEW")
@@ -686,9 +794,15 @@ int main()
       g_scripts.push_back(sc);
       printf("on\n");
     }
-    else if (k == "OFF") { g_scripts.clear(); printf("off\n"); }
+    else if (k == "OFF") { for (size_t i = 0; i < g_scripts.size(); ++i) g_scripts[i].active = false; printf("off\n"); }
+    else if (k == "POLL" && g_specialOpen > 0) { invalid("POLL with the loop's own descriptors open: use LOOP"); bad = true; continue; }
     else if (k == "LOOP" || k == "POLL")
     {
+      // with the loop's own descriptors in play (one live side) quit() is queued first, so that the wakeup() it causes
+      // (queueInLoop before loop() is entered: !looping_) is part of the readiness observed below
+      bool preQuit = (k == "LOOP" && g_specialOpen > 0 && (g_dead[0] != g_dead[1]));
+      if (k == "LOOP" && g_specialOpen > 0 && !preQuit) { invalid("the loop's own descriptors need a one-sided case (only=E|only=P)"); bad = true; continue; }
+      if (preQuit) g_loop->queueInLoop(std::bind(&EventLoop::quit, g_loop));
       // observed readiness of every open descriptor (independent raw poll(2), all conditions asked)
       std::vector<struct pollfd> raw;
       for (int d = 0; d < MAXFD; ++d)
@@ -700,8 +814,8 @@ int main()
         if (raw[i].revents) { env << (first ? "" : ",") << raw[i].fd - FDBASE << ":" << raw[i].revents; first = false; }
       if (k == "LOOP")
       {
-        string sE = g_dead[0] ? string("dead") : loopOnce(0);
-        string sP = g_dead[1] ? string("dead") : loopOnce(1);
+        string sE = g_dead[0] ? string("dead") : loopOnce(0, preQuit);
+        string sP = g_dead[1] ? string("dead") : loopOnce(1, preQuit);
         printf("loop env=%s E %s | P %s || %s\n", env.str().c_str(), sE.c_str(), sP.c_str(),
                aliveCount() > 16 ? "big" : stateString().c_str());
         if (g_dead[0] && g_dead[1]) bad = true;     // nothing left to compare in this case
